@@ -69,7 +69,8 @@ def run_body(args, body):
 
 
 def make_fn(f):
-  def fn(*args):
+  def fn(*args, **kw):
+    args = args + tuple(kw[k] for k in sorted(kw))      # keyword arguments are the last arguments, in name order
     run_body(args, f['body'])
     r = ev(args, f['ret'])
     if f.get('obj') is not None:
@@ -125,7 +126,8 @@ def call(kind, c, fn_desc, args, k):
     return out if has_obj else (out, None)
   if kind in ('jit', 'remat'):
     tf = c['_cache'].setdefault((kind, id(fn_desc)), nnx.jit(f) if kind == 'jit' else nnx.remat(f))
-    out = tf(*args)
+    nkw = c.get('nkw', 0) if kind == 'jit' else 0
+    out = tf(*args[:len(args) - nkw], **{'kw%d' % i: a for i, a in enumerate(args[len(args) - nkw:])})
     return out if has_obj else (out, None)
   if kind == 'cpartial':
     # cached_partial binds (a clone of) the arguments once; later calls re-use the cached graphdef
